@@ -317,6 +317,10 @@ func runC28(c *fw.Ctx, idx int) {
 			}
 			failed := 0
 			for m := lo; m < hi && failed < 3; m++ {
+				if (m-lo)%4096 == 4095 {
+					// the supervisor's CPU budget runs between journal entries: a block of 65536 decodes is long, a single decode must not be
+					c.Note("C28 compositions progress %d of [%d,%d)", m, lo, hi)
+				}
 				s := c28Schedule{Shape: "composition", Ops: c28Composition(n, uint32(m)), EOFWithData: false}
 				if !c28Compare(c, cfg, e, doc, base, s, false) {
 					failed++
